@@ -1,20 +1,20 @@
 SPECIFICATION GSpec
 CONSTANTS
-  Transport = "tls"
+  Transport = "quic"
   ResidueAfterFailure = FALSE
   ShortCookieRead = FALSE
   DialResetsData = TRUE
   Alpns <- AlpnsOk
-  Alphabet <- AlphaAll
+  Alphabet <- AlphaNaming
   CutRecs <- CutNone
   MaxRecs = 4
-  MaxDials = 1
-  MaxCalls = 1
+  MaxDials = 2
+  MaxCalls = 2
   MaxStore = 0
   CtxMode = "ignored"
   MaxStalls = 0
   StaleNextHop = FALSE
-  Tails = TRUE
-  Vias <- ViasAny
-CONSTRAINT Decorated
-INVARIANTS EmitDecorated RunAgrees
+  Tails = FALSE
+  Vias <- ViasMeasure
+CONSTRAINT Naming NamingChain
+INVARIANTS EmitNaming RunAgrees
